@@ -192,6 +192,7 @@ func (fr *Frame) callFunc(v ssa.Value, f *ssa.Function, args []Val, bind []Val, 
 	}
 	// inline
 	ex.Inlined[shortName(f.String())] = true
+	ex.inlinedFns = append(ex.inlinedFns, f)
 	sub := &Frame{ex: ex, fn: f, con: con, prefix: fr.site(in) + "/", inheritSeg: fr.curSeg()}
 	ex.stack = append(ex.stack, f)
 	ex.depth++
